@@ -121,6 +121,35 @@ class C02(Spec):
                     a = rng.choice(sk)
                     h.append("jeq %d %d %d" % (a, a if rng.random() < 0.2 else rng.choice(sk), seed))
             if rng.random() < 0.5:
+                # the SAME stream in sketches of different size: the small one is in estimation mode and its theta is the hash of an
+                # item it discarded, which the large (exact / larger-k) one still retains: a hash EQUAL to the result theta must not
+                # survive in a union / intersection / difference result, whichever operand comes first
+                n = rng.choice([100, 300, 1000])
+                base = rng.randrange(universe * 4)
+                small, large = fresh(), fresh()
+                h.append("new %d %d %d 3f800000 %d" % (small, 5, rng.randrange(4), seed))
+                h.append("new %d %d %d 3f800000 %d" % (large, rng.choice([8, 10, 12]), rng.randrange(4), seed))
+                for x in range(n):
+                    h.append("upd %d u64 %d" % (small, base + x))
+                    h.append("upd %d u64 %d" % (large, base + x))
+                forms = {}
+                for sid in (small, large):
+                    c = fresh()
+                    h.append("compact %d %d %d" % (sid, c, rng.randrange(2)))
+                    forms[sid] = rng.choice([sid, c])
+                for order in ((large, small), (small, large)):
+                    u = fresh()
+                    h.append("unew %d %d %d 3f800000 %d" % (u, rng.choice([10, 12]), rng.randrange(4), seed))
+                    for sid in order:
+                        h.append("uupd %d %d" % (u, forms[sid]))
+                    h.append("ures %d %d %d" % (u, fresh(), rng.randrange(2)))
+                    it = fresh()
+                    h.append("inew %d %d" % (it, seed))
+                    for sid in order:
+                        h.append("iupd %d %d" % (it, forms[sid]))
+                    h.append("ires %d %d %d" % (it, fresh(), rng.randrange(2)))
+                    h.append("anotb %d %d %d %d %d" % (forms[order[0]], forms[order[1]], fresh(), rng.randrange(2), seed))
+            if rng.random() < 0.5:
                 # Jaccard / exactly_equal on subset-superset, identical and disjoint pairs with EQUAL theta (exact mode, or the same
                 # sampling probability and no rebuild), in both argument orders and several physical forms: the "identical sets" shortcut
                 # compares theta and retained counts, and is only right if it looks at both operands
